@@ -54,6 +54,15 @@ theorem remaining_default (rl : Option Int) :
 theorem remaining_default_pos (n : Int) (h : 0 < n) : (remainingDefault (some n) : Int) = n := by
   simp [remainingDefault, h]; omega
 
+/-- The generic transport reports the wrapped object's readable length (when positive, else
+    "unknown") regardless of any other method the object has — in particular regardless of a
+    `RemainingBytes` of its own; a `*bufferTransport` handed back in is wrapped like anything else and,
+    having no `ReadableLen`, reports "unknown"; only a `*bytes.Buffer` becomes a buffer transport. -/
+theorem remaining_default_ignores_own (rl : Option Int) (own : Option Nat) (s : Buf) :
+    newDefaultRemaining (.other rl own) = remainingDefault rl ∧
+    newDefaultRemaining (.bufferTransport s) = 18446744073709551615 ∧
+    newDefaultRemaining (.bytesBuffer s) = s.len := ⟨rfl, rfl, rfl⟩
+
 /-- A registered callback receives exactly the arguments given and its result is returned. -/
 theorem callback_passthrough {α β ρ : Type} (r : Registry α β ρ)
     (fc : α → ρ) (fr fw : β → α → ρ) (x : β) (v : α) :
@@ -80,6 +89,7 @@ example : (run (Buf.new [1, 2, 3]) [.read .T 2, .write .B [9], .read .B 5, .read
     [.got [1, 2] false, .wrote 1, .got [3, 9] false, .got [] true] := by decide
 example : remainingDefault (some 5) = 5 ∧ remainingDefault (some 0) = 2 ^ 64 - 1 ∧
     remainingDefault (some (-3)) = 2 ^ 64 - 1 := by decide
+example : newDefaultRemaining (.other (some 7) (some 3)) = 7 ∧ newDefaultRemaining (.other (some 0) (some 3)) = 2 ^ 64 - 1 := by decide
 example : checkTStruct ((Registry.empty : Registry Nat Nat Nat).regCheck (some (· + 1))) 4 = .ok 5 := rfl
 
 end Verif.C19
